@@ -11,6 +11,8 @@ state satisfying the representation invariant `RB.Inv` (all reachable states: `c
 import Golib.Proof.C03RB
 import Golib.Proof.C03Enum
 import Golib.Proof.C03Iter
+import Golib.Proof.C03Bridge
+import Golib.Gen.FactsC03
 
 namespace Golib.C03
 
@@ -143,5 +145,33 @@ example : ∃ w, (Container.bmp 4097 w).Inv := by
     · intro y hy; rw [Array.toList_range, List.mem_range] at hy; omega
   obtain ⟨w, _, hi, _⟩ := c03_conversion_card (Array.range 4096) 5000 hv (by simp) (by decide) (by simp)
   exact ⟨w, hi⟩
+
+/-- The skip list under the bitmap is used only through `GetNode/Get/Set/Remove/Head/Next/
+SetValue`; the association-list functions the model uses for them are exactly the sorted-map
+specification that property C02 proves the real skip list refines (`c02_refines`), for the
+built-in order of the `uint16` bucket keys. -/
+theorem c03_skiplist_interface (r : RB) (h : r.Inv) (k : Nat) (c : Container) :
+    Golib.C02.TotalCmp cmpNat ∧
+    omGet r.cs k = Golib.C02.OMap.get r.cs k ∧
+    omSet r.cs k c = Golib.C02.OMap.set cmpNat r.cs k c ∧
+    omRemove r.cs k = Golib.C02.OMap.erase cmpNat r.cs k ∧
+    ((omGet r.cs k).isSome = true → omSetValue r.cs k c = Golib.C02.OMap.set cmpNat r.cs k c) :=
+  ⟨cmpNat_total, omGet_eq r.cs k, omSet_eq h.keys k c, omRemove_eq h.keys k,
+    fun hk => (omSetValue_eq h.keys k c hk).trans (omSet_eq h.keys k c)⟩
+
+example : omSet [(0, .arr #[1]), (3, .arr #[7])] 1 (.arr #[2]) = [(0, .arr #[1]), (1, .arr #[2]), (3, .arr #[7])] ∧
+    KeySorted [(0, .arr #[1]), (3, .arr #[7])] := by
+  refine ⟨by simp [omSet], by unfold KeySorted; decide⟩
+
+/-- What the hand-written model takes from the source text, re-extracted from /repo by go/ast
+on every run (`Golib/Gen/FactsC03.lean`): the conversion threshold, the sizes of the scratch
+buffer and of the word array, the cardinality written by hand after a conversion
+(= threshold + 1), and that `Next` drops the inner iterator when it moves to the next bucket
+(the F2 repair — `itNext true` is the model of exactly that code). -/
+theorem c03_facts :
+    Golib.Gen.C03.extractorOK = true ∧ Golib.Gen.C03.threshold = threshold ∧
+    Golib.Gen.C03.bufLen = threshold ∧ Golib.Gen.C03.words = 1024 ∧ Golib.Gen.C03.words * 64 = 65536 ∧
+    Golib.Gen.C03.convertedLen = threshold + 1 ∧ Golib.Gen.C03.iterReset = true := by
+  decide
 
 end Golib.C03
